@@ -92,6 +92,16 @@ class HistoryRun:
         pick_path = lambda: rng.choice(paths) if paths and rng.random() < 0.8 else rng.choice(NAMES)
         pick_dir = lambda: rng.choice(dirs) if dirs and rng.random() < 0.7 else rng.choice(["dir", "newdir", "dir/sub"])
         nC = len(hist.CONTENTS)
+        if view["main"] and rng.random() < (0.08 if cfg["layout"] in ("0002", "0006", "0007") else 0.01):
+            # purge / reset-all of an id that never existed but whose layout path is related to an existing object
+            rels = [os.path.relpath(r, self.r.root) for r, _ in view["main"].values()]
+            cands = [x for x in hist.stranger_ids(cfg, rels) if x not in self.ids]
+            related = [x for x in cands if x not in (".", "extensions", "no-such-object")]
+            if related and rng.random() < 0.8:
+                cands = related
+            self.shapes["purge / reset-all of a never-existing id related to an existing object's root"] = \
+                self.shapes.get("purge / reset-all of a never-existing id related to an existing object's root", 0) + 1
+            return {"op": rng.choice(["purge", "purge", "reset_all"]), "id": rng.choice(cands)}
         cps = clash_pairs(paths)
         if cps and rng.random() < 0.07:
             # two source trees in which one NAME is a file in the first and a directory in the second: merged
